@@ -242,7 +242,7 @@ def main():
             {'name': 'E3', 'path': 'mc/tlc.py', 'serves_properties': sorted(k for k, v in CHECKS.items() if 'E3' in v[0]),
              'kind_free_text': 'TLA+ model generated from the documentation tables, checked with TLC; the dumped state graph is replayed trace by trace against the implementation'},
             {'name': 'E4', 'path': 'mc/histories.py', 'serves_properties': sorted(CHECKS),
-             'kind_free_text': 'history harness: for a catalogue of 94 public operations with one-factor argument variants, exhaustive enumeration of ordered call pairs, depth-4 triples, cross-operation pairs, result edits, in-place refills, refused calls and positional / default / list call forms on the real code, with bit-equality (cold vs warm) oracles and library state reset before every cold arm'},
+             'kind_free_text': 'history harness: for a catalogue of 95 public operations with one-factor argument variants, exhaustive enumeration of ordered call pairs, depth-4 triples, cross-operation pairs, result edits, in-place refills, refused calls and positional / default / list call forms on the real code, with bit-equality (cold vs warm) oracles and library state reset before every cold arm'},
         ],
         'checks': checks,
         'not_applicable': na,
